@@ -190,9 +190,21 @@ pub fn check_c05(c: &ConvCase, tol: Tolerate) -> (CaseInfo, CheckResult) {
         info.class("not-converged");
         return (info, Ok(()));
     }
-    let r = check_merge(&out, &mut info);
+    let mut r = check_merge(&out, &mut info);
+    // known root cause shared with C04 (events are addressed by hash: diff / rewind / scan look
+    // for the last occurrence of a hash): once ONE device's log holds the same byte-identical
+    // event twice, merges can drop one of the two - attributed to that root cause
+    if out.has_repeats {
+        if let Err(f) = &r {
+            if f.signature.starts_with("c05/event-lost/") {
+                r = Err(Failure::new(K_REPEAT_LOST, format!("[{}] {}", f.signature, f.message)));
+            }
+        }
+    }
     (info, r)
 }
+
+pub const K_REPEAT_LOST: &str = "c05/event-lost/event-hash-repeats-within-a-log";
 
 fn biased_case() -> impl proptest::strategy::Strategy<Value = ConvCase> {
     use proptest::prelude::*;
